@@ -1,7 +1,473 @@
-// correspondence + search binary for property C03 (stub)
+// C03 — the betting state machine permits exactly the No-Limit Hold'em moves.
+//
+// Correspondence: at every visited state of the real `Game` the harness asks `is_allowed` for
+// every action kind x every amount -1..=stack+1 x well-/ill-formed deals (`allowed …` lines) and
+// writes the state/turn/legal() after every action (`game …` lines, some ending in a rejected
+// action: `apply` must panic, the model's `step?` must be `none`). The Lean driver answers the
+// same lines with `RP.Game.isAllowed` / `step?`.
+//
+// Search oracle: `Nl`, a No-Limit Hold'em rules machine written from the rules (per-street
+// "has acted" flags, current bet, last raise size taken from the history, live / all-in / folded,
+// next to act) and not from the engine's ticker/memoryless formulas. It runs in lockstep with
+// the engine: same turn, same permitted set for every candidate, accepted actions do not panic and
+// lead to the oracle's next state, rejected actions panic.
+// Thorough tier: breadth-first search over the whole reachable betting state space.
+#[path = "../gamewalk.rs"]
+mod gamewalk;
+use gamewalk::*;
+use robopoker::cards::hand::Hand;
+use robopoker::gameplay::action::Action;
+use robopoker::gameplay::game::Game;
+use robopoker::gameplay::ply::Turn;
+use robopoker::gameplay::seat::State;
+use rpharness::*;
+use std::collections::{HashMap, HashSet, VecDeque};
+
+const STACK: i32 = robopoker::verif::STACK as i32;
+const BB: i32 = robopoker::verif::B_BLIND as i32;
+const SB: i32 = robopoker::verif::S_BLIND as i32;
+const N: usize = 2;
+const DEALER: usize = 0;
+
+/// ---------------------------------------------------------------- the rules machine
+#[derive(Clone, Debug, PartialEq, Eq, Hash)]
+struct Nl {
+    stack: [i32; N],
+    bet: [i32; N],   // this street
+    total: [i32; N], // this hand
+    folded: [bool; N],
+    allin: [bool; N],
+    acted: [bool; N], // has acted on this street
+    street: u8,       // 0..=3
+    cur_bet: i32,
+    last_raise: i32, // size of the last full raise on this street (0: none yet)
+    to_act: usize,
+    board: u64,
+    holes: [u64; N],
+}
+#[derive(Clone, Copy, Debug, PartialEq, Eq)]
+enum NlTurn {
+    Over,
+    Deal,
+    Player(usize),
+}
+
+impl Nl {
+    fn new(h0: u64, h1: u64) -> Nl {
+        // ring order: small blind = seat after the button, big blind = next seat;
+        // first to act pre-flop = seat after the big blind, post-flop = first live seat after the button
+        let sb = (DEALER + 1) % N;
+        let bb = (DEALER + 2) % N;
+        let mut s = Nl {
+            stack: [STACK; N], bet: [0; N], total: [0; N], folded: [false; N], allin: [false; N], acted: [false; N],
+            street: 0, cur_bet: 0, last_raise: 0, to_act: 0, board: 0, holes: [h0, h1],
+        };
+        s.put(sb, SB.min(STACK));
+        s.put(bb, BB.min(STACK));
+        s.cur_bet = s.bet[bb].max(s.bet[sb]);
+        s.to_act = s.next_actor_from((bb + 1) % N);
+        s
+    }
+    fn put(&mut self, p: usize, x: i32) {
+        self.stack[p] -= x;
+        self.bet[p] += x;
+        self.total[p] += x;
+        if self.stack[p] == 0 {
+            self.allin[p] = true;
+        }
+    }
+    fn live(&self) -> usize {
+        (0..N).filter(|&p| !self.folded[p]).count()
+    }
+    fn can_act(&self, p: usize) -> bool {
+        !self.folded[p] && !self.allin[p]
+    }
+    fn next_actor_from(&self, start: usize) -> usize {
+        for k in 0..N {
+            let p = (start + k) % N;
+            if self.can_act(p) {
+                return p;
+            }
+        }
+        start
+    }
+    /// every player who can still act has acted and matched the current bet
+    fn closed(&self) -> bool {
+        let actors: Vec<usize> = (0..N).filter(|&p| self.can_act(p)).collect();
+        if actors.iter().all(|&p| self.acted[p] && self.bet[p] == self.cur_bet) {
+            return true;
+        }
+        // a single player left to act who has already covered every all-in has nothing to answer
+        actors.len() == 1 && self.bet[actors[0]] >= self.cur_bet && (0..N).all(|p| p == actors[0] || self.folded[p] || self.allin[p])
+    }
+    fn turn(&self) -> NlTurn {
+        if self.live() <= 1 {
+            return NlTurn::Over;
+        }
+        if self.closed() {
+            return if self.street == 3 { NlTurn::Over } else { NlTurn::Deal };
+        }
+        NlTurn::Player(self.to_act)
+    }
+    fn n_revealed(&self) -> u32 {
+        if self.street == 0 { 3 } else { 1 }
+    }
+    fn permitted(&self, a: &Action, deck_mask: u64) -> bool {
+        match self.turn() {
+            NlTurn::Over => false,
+            NlTurn::Deal => match a {
+                Action::Draw(h) => {
+                    let c = bits(*h);
+                    let in_play = self.board | self.holes[0] | self.holes[1];
+                    c & in_play == 0 && c & !deck_mask == 0 && c.count_ones() == self.n_revealed()
+                }
+                _ => false,
+            },
+            NlTurn::Player(p) => {
+                let outstanding = self.cur_bet - self.bet[p];
+                let stack = self.stack[p];
+                match a {
+                    Action::Fold => outstanding > 0,
+                    Action::Check => outstanding == 0,
+                    Action::Call(x) => *x as i32 == outstanding && outstanding > 0 && outstanding < stack,
+                    Action::Shove(x) => *x as i32 == stack && stack > 0,
+                    Action::Raise(x) => {
+                        let x = *x as i32;
+                        x >= outstanding + self.last_raise.max(BB) && x <= stack - 1
+                    }
+                    Action::Blind(_) | Action::Draw(_) => false,
+                }
+            }
+        }
+    }
+    /// apply a permitted action
+    fn apply(&self, a: &Action) -> Nl {
+        let mut s = self.clone();
+        match a {
+            Action::Draw(h) => {
+                s.board |= bits(*h);
+                s.street += 1;
+                s.bet = [0; N];
+                s.acted = [false; N];
+                s.cur_bet = 0;
+                s.last_raise = 0;
+                s.to_act = s.next_actor_from((DEALER + 1) % N);
+                return s;
+            }
+            _ => {}
+        }
+        let p = self.to_act;
+        s.acted[p] = true;
+        match a {
+            Action::Fold => s.folded[p] = true,
+            Action::Check => {}
+            Action::Call(x) => s.put(p, *x as i32),
+            Action::Raise(x) | Action::Shove(x) => {
+                s.put(p, *x as i32);
+                if s.bet[p] > s.cur_bet {
+                    let by = s.bet[p] - s.cur_bet;
+                    if by >= s.last_raise.max(BB) || matches!(a, Action::Raise(_)) {
+                        s.last_raise = by;
+                    }
+                    s.cur_bet = s.bet[p];
+                }
+            }
+            _ => unreachable!(),
+        }
+        s.to_act = s.next_actor_from((p + 1) % N);
+        s
+    }
+    /// does the engine state show the same chips / statuses / street?
+    fn same_as(&self, g: &Game) -> bool {
+        let seats = g.verif_seats();
+        (0..N).all(|p| {
+            seats[p].1 as i32 == self.stack[p]
+                && seats[p].2 as i32 == self.bet[p]
+                && seats[p].3 as i32 == self.total[p]
+                && (seats[p].0 == State::Folding) == self.folded[p]
+                && (self.folded[p] || (seats[p].0 == State::Shoving) == self.allin[p])
+        }) && g.pot() as i32 == self.total.iter().sum::<i32>()
+            && g.street() as isize as u8 == self.street
+            && board_bits(g) == self.board
+    }
+    fn same_turn(&self, g: &Game) -> bool {
+        match (self.turn(), g.turn()) {
+            (NlTurn::Over, Turn::Terminal) | (NlTurn::Deal, Turn::Chance) => true,
+            (NlTurn::Player(p), Turn::Choice(q)) => p == q,
+            _ => false,
+        }
+    }
+}
+
+/// ---------------------------------------------------------------- candidates
+fn candidates(g: &Game, deal: &Deal, rng: &mut Rng, all_amounts: bool) -> Vec<Action> {
+    let seats = g.verif_seats();
+    let top = match g.turn() {
+        Turn::Choice(p) => seats[p].1,
+        _ => seats[0].1.max(seats[1].1).max(3),
+    };
+    let mut v = vec![Action::Fold, Action::Check];
+    let amounts: Vec<i16> = if all_amounts {
+        (-1..=top + 1).collect()
+    } else {
+        // boundaries of every rule
+        let mut a: Vec<i16> = vec![-1, 0, 1, 2, 3, top - 1, top, top + 1];
+        let tc = seats[0].2.max(seats[1].2) - seats[0].2.min(seats[1].2);
+        for d in -1..=1 {
+            a.push(tc + d);
+            a.push(2 * tc + d);
+            a.push(tc + BB as i16 + d);
+        }
+        a.push(rng.range(0, top as i64 + 1) as i16);
+        a.sort();
+        a.dedup();
+        a
+    };
+    for &x in &amounts {
+        v.push(Action::Call(x));
+        v.push(Action::Raise(x));
+        v.push(Action::Shove(x));
+        v.push(Action::Blind(x));
+    }
+    // deals
+    let full = bits(hand(Hand::mask()));
+    let board = board_bits(g);
+    let in_play = board | deal.h0 | deal.h1;
+    let st = (g.street() as isize as usize).min(2);
+    let want = if st == 0 { 3 } else { 1 };
+    let fresh = rng.cards(want, full & !in_play);
+    v.push(Action::Draw(hand(fresh))); // well-formed
+    if deal.streets[st] & in_play == 0 {
+        v.push(Action::Draw(hand(deal.streets[st]))); // the forced street cards
+    }
+    v.push(Action::Draw(hand(rng.cards(want + 1, full & !in_play)))); // one card too many
+    v.push(Action::Draw(hand(rng.cards(want - 1, full & !in_play)))); // one too few (possibly none)
+    v.push(Action::Draw(hand(0)));
+    let lowest = |m: u64| m & m.wrapping_neg();
+    v.push(Action::Draw(hand(rng.cards(want - 1, full & !in_play) | lowest(deal.h0)))); // a hole card of seat 0
+    v.push(Action::Draw(hand(rng.cards(want - 1, full & !in_play) | (1u64 << (63 - deal.h1.leading_zeros()))))); // a hole card of seat 1
+    if board != 0 {
+        v.push(Action::Draw(hand(rng.cards(want - 1, full & !in_play) | lowest(board)))); // a board card again
+    }
+    v
+}
+
+struct Ctx {
+    run: Run,
+    probed: HashSet<(u64, (i16, [(u8, i16, i16, i16); 2], usize, u8))>,
+}
+
+/// probe one state: is_allowed on every candidate vs the oracle; apply under catch
+fn probe(cx: &mut Ctx, rng: &mut Rng, deal: &Deal, deal_id: u64, hist: &[Action], g: &Game, nl: &Nl, all_amounts: bool) {
+    let full = bits(hand(Hand::mask()));
+    let key = (if g.turn() == Turn::Chance { deal_id } else { 0 }, betting_key(g));
+    if !cx.probed.insert(key) {
+        return;
+    }
+    let name = format!("{} {} | {}", deal.h0, deal.h1, hist_tok(hist));
+    cx.run.spec_checked += 1;
+    if !nl.same_turn(g) {
+        cx.run.fail("turn", &format!("game {name}"), &format!("{:?}", nl.turn()), &turn_tok(g.turn()));
+    }
+    let cands = candidates(g, deal, rng, all_amounts);
+    let mut answer = String::with_capacity(cands.len());
+    let mut rejected = vec![];
+    for c in &cands {
+        cx.run.evaluations += 1;
+        let gg = *g;
+        let cc = *c;
+        let got = catch(move || gg.is_allowed(&cc));
+        let want = nl.permitted(c, full);
+        cx.run.spec_checked += 1;
+        match got {
+            None => {
+                answer.push('P');
+                cx.run.fail("is_allowed-panics", &format!("allowed {name} | {}", act_tok(c)), &format!("{want}"), "panic");
+            }
+            Some(b) => {
+                answer.push(if b { '1' } else { '0' });
+                if b != want {
+                    cx.run.fail("permitted-set", &format!("allowed {name} | {}", act_tok(c)), &format!("{}", want as u8), &format!("{}", b as u8));
+                }
+                cx.run.count(&format!("{}:{}:{}:{}", street_name(g), turn_kind(g), kind_name(c), if b { "accept" } else { "reject" }));
+                if b {
+                    // accepted: apply must succeed and land in the oracle's next state
+                    let r = catch(move || gg.apply(cc));
+                    cx.run.spec_checked += 1;
+                    match r {
+                        None => cx.run.fail("accepted-action-panics", &format!("game {name} {}", act_tok(c)), "a state", "panic"),
+                        Some(child) => {
+                            if want {
+                                let n2 = nl.apply(c);
+                                if !n2.same_as(&child) || !n2.same_turn(&child) {
+                                    cx.run.fail("transition", &format!("game {name} {}", act_tok(c)), &format!("{n2:?} turn {:?}", n2.turn()), &state_line(&child));
+                                }
+                            }
+                        }
+                    }
+                } else {
+                    rejected.push(*c);
+                }
+            }
+        }
+    }
+    cx.run.line(&format!("allowed {name} | {}", cands.iter().map(act_tok).collect::<Vec<_>>().join(" ")), &answer);
+    cx.run.distinct(&key);
+    // rejected actions: apply panics (on its clone) and the state we hold is untouched
+    let before = state_line(g);
+    let k = rejected.len().min(if all_amounts { 12 } else { 4 });
+    for i in 0..k {
+        let c = if i < 2 { rejected[i * (rejected.len() - 1)] } else { rejected[rng.below(rejected.len() as u64) as usize] };
+        let gg = *g;
+        let r = catch(move || gg.apply(c));
+        cx.run.spec_checked += 1;
+        let mut h2 = hist.to_vec();
+        h2.push(c);
+        if r.is_some() {
+            cx.run.fail("rejected-action-applied", &format!("game {} {} | {}", deal.h0, deal.h1, hist_tok(&h2)), "panic", &state_line(&r.unwrap()));
+        }
+        if state_line(g) != before {
+            cx.run.fail("rejected-action-mutates", &format!("game {} {} | {}", deal.h0, deal.h1, hist_tok(&h2)), &before, &state_line(g));
+        }
+        cx.run.count("apply-rejected");
+    }
+}
+
 fn main() {
-    let a = rpharness::args();
-    let mut run = rpharness::Run::new(&a.out);
-    run.rule = "stub".into();
-    run.finish();
+    let a = args();
+    let mut rng = Rng::new(a.seed);
+    quiet_panics();
+    let mut cx = Ctx { run: Run::new(&a.out), probed: HashSet::new() };
+    let deals = make_deals(&mut rng, 24);
+    let n_hist: usize = if a.thorough() { 60_000 } else { 12_000 };
+    cx.run.rule = format!(
+        "{n_hist} random histories of the real Game (5 play styles x legal() ∪ every raise size, {} forced deals); every distinct visited betting state is probed once with every action kind x every amount -1..=stack+1 x 7-8 well-/ill-formed deals (is_allowed vs the NLHE rules machine; accepted actions applied and compared with the machine's next state; a sample of rejected actions applied under catch_unwind); thorough adds a breadth-first search over all reachable betting states; a case = one distinct (betting state [, deal at chance nodes]); non-trivial always",
+        deals.len()
+    );
+    for h in 0..n_hist {
+        let deal_id = (h % deals.len()) as u64;
+        let deal = &deals[deal_id as usize];
+        let style = (h / deals.len()) as u64 % 5;
+        let (hist, states) = random_history(&mut rng, deal, style);
+        // lockstep with the rules machine
+        let mut nl = Nl::new(deal.h0, deal.h1);
+        for i in 0..=hist.len() {
+            if i > 0 {
+                nl = nl.apply(&hist[i - 1]);
+            }
+            cx.run.spec_checked += 1;
+            if !nl.same_as(&states[i]) {
+                cx.run.fail("lockstep-state", &format!("game {} {} | {}", deal.h0, deal.h1, hist_tok(&hist[..i])), &format!("{nl:?}"), &state_line(&states[i]));
+                break;
+            }
+            probe(&mut cx, &mut rng, deal, deal_id, &hist[..i], &states[i], &nl, true);
+        }
+        // the history itself (turn and legal() after every action), one in three with a rejected action appended
+        let mut line = states.iter().map(state_line).collect::<Vec<_>>().join(" ; ");
+        let mut hh = hist.clone();
+        if h % 3 == 0 {
+            let k = rng.below(states.len() as u64) as usize;
+            let g = states[k];
+            let cands = candidates(&g, deal, &mut rng, false);
+            let bad: Vec<&Action> = cands.iter().filter(|c| !g.is_allowed(c)).collect();
+            if !bad.is_empty() {
+                let c = *bad[rng.below(bad.len() as u64) as usize];
+                hh.truncate(k);
+                hh.push(c);
+                let r = catch(move || g.apply(c));
+                line = states[..=k].iter().map(state_line).collect::<Vec<_>>().join(" ; ")
+                    + " ; " + &match r { None => "panic".to_string(), Some(x) => state_line(&x) };
+                cx.run.count("history-with-rejected-tail");
+            }
+        }
+        cx.run.line(&format!("game {} {} | {}", deal.h0, deal.h1, hist_tok(&hh)), &line);
+    }
+    cx.run.exhaustive = false;
+    if a.thorough() {
+        bfs(&mut cx, &mut rng, &deals[0]);
+    }
+    cx.run.finish();
+}
+
+/// breadth-first search over every reachable betting state (one forced deal; cards do not
+/// influence betting). Every state: turn + full candidate sweep against the rules machine;
+/// every accepted action is a transition. The model sees every state with the boundary candidates.
+fn bfs(cx: &mut Ctx, rng: &mut Rng, deal: &Deal) {
+    let full = bits(hand(Hand::mask()));
+    let root = root_with(deal.h0, deal.h1);
+    let nl0 = Nl::new(deal.h0, deal.h1);
+    // node store: (game, machine, parent, action)
+    let mut nodes: Vec<(Game, Nl, u32, Option<Action>)> = vec![(root, nl0, u32::MAX, None)];
+    let mut seen: HashMap<(i16, [(u8, i16, i16, i16); 2], usize, u8), u32> = HashMap::new();
+    seen.insert(betting_key(&root), 0);
+    let mut queue: VecDeque<u32> = VecDeque::from([0]);
+    let mut transitions = 0u64;
+    while let Some(id) = queue.pop_front() {
+        let (g, nl, _, _) = nodes[id as usize].clone();
+        cx.run.spec_checked += 1;
+        if !nl.same_turn(&g) || !nl.same_as(&g) {
+            cx.run.fail("bfs-turn-or-state", &format!("betting state {:?}", betting_key(&g)), &format!("{nl:?} {:?}", nl.turn()), &state_line(&g));
+            continue;
+        }
+        let seats = g.verif_seats();
+        let top = seats[0].1.max(seats[1].1) + 1;
+        let mut cands = vec![Action::Fold, Action::Check];
+        for x in -1..=top {
+            cands.push(Action::Call(x));
+            cands.push(Action::Raise(x));
+            cands.push(Action::Shove(x));
+            cands.push(Action::Blind(x));
+        }
+        let st = (g.street() as isize as usize).min(2);
+        cands.push(Action::Draw(hand(deal.streets[st])));
+        cands.push(Action::Draw(hand(deal.streets[st] | deal.h0 & deal.h0.wrapping_neg())));
+        cands.push(Action::Draw(hand(0)));
+        for c in &cands {
+            cx.run.evaluations += 1;
+            cx.run.spec_checked += 1;
+            let got = g.is_allowed(c);
+            let want = nl.permitted(c, full);
+            if got != want {
+                let path = path_of(&nodes, id);
+                cx.run.fail("permitted-set", &format!("allowed {} {} | {} | {}", deal.h0, deal.h1, hist_tok(&path), act_tok(c)), &format!("{}", want as u8), &format!("{}", got as u8));
+            }
+            if got && want {
+                transitions += 1;
+                let child = g.apply(*c);
+                let n2 = nl.apply(c);
+                let k = betting_key(&child);
+                if !seen.contains_key(&k) {
+                    let nid = nodes.len() as u32;
+                    seen.insert(k, nid);
+                    nodes.push((child, n2, id, Some(*c)));
+                    queue.push_back(nid);
+                }
+            }
+        }
+        // correspondence line for the model: boundary candidates at every 12th state (and all
+        // shallow ones); the rules machine above has seen every state with every amount
+        let path = path_of(&nodes, id);
+        cx.run.distinct(&(u64::MAX, betting_key(&g)));
+        if id % 12 != 0 && path.len() > 4 {
+            continue;
+        }
+        let name = format!("{} {} | {}", deal.h0, deal.h1, hist_tok(&path));
+        let cs = candidates(&g, deal, rng, false);
+        let ans: String = cs.iter().map(|c| if g.is_allowed(c) { '1' } else { '0' }).collect();
+        cx.run.line(&format!("allowed {name} | {}", cs.iter().map(act_tok).collect::<Vec<_>>().join(" ")), &ans);
+    }
+    cx.run.exhaustive = true;
+    cx.run.count_n("bfs:states", nodes.len() as u64);
+    cx.run.count_n("bfs:transitions", transitions);
+    cx.run.notes.push(format!("breadth-first search visited all {} reachable betting states and {} accepted transitions of the configured game (exhaustive in the betting dimension; cards fixed to one forced deal)", nodes.len(), transitions));
+}
+
+fn path_of(nodes: &[(Game, Nl, u32, Option<Action>)], mut id: u32) -> Vec<Action> {
+    let mut p = vec![];
+    while let Some(a) = nodes[id as usize].3 {
+        p.push(a);
+        id = nodes[id as usize].2;
+    }
+    p.reverse();
+    p
 }
